@@ -1,6 +1,8 @@
 mod absval;
 mod calc;
 mod emit;
+mod float;
+mod prog;
 mod registry;
 mod render;
 mod replay;
@@ -55,6 +57,36 @@ fn main() {
                 Some((e, t)) => println!("{}", json!({"type": key, "events": e, "tried": t, "file": path})),
                 None => {
                     eprintln!("unknown type key {key}");
+                    std::process::exit(2);
+                }
+            }
+        }
+        "float-elem" => {
+            // float-elem --tables <file>[,<file>..] --samples N --seed S --k K [--types filter]
+            let files: Vec<String> = arg(&args, "--tables").expect("--tables").split(',').map(|s| s.to_string()).collect();
+            let samples: usize = arg(&args, "--samples").and_then(|x| x.parse().ok()).unwrap_or(20);
+            let seed: u64 = arg(&args, "--seed").and_then(|x| x.parse().ok()).unwrap_or(1);
+            let k: f64 = arg(&args, "--k").and_then(|x| x.parse().ok()).unwrap_or(64.0);
+            let r = float::load(&files).and_then(|t| float::elem_sweep(&t, samples, seed, k, arg(&args, "--types").as_deref()));
+            match r {
+                Ok(v) => println!("{v}"),
+                Err(e) => {
+                    eprintln!("tool error: {e}");
+                    std::process::exit(2);
+                }
+            }
+        }
+        "float-prog" => {
+            let files: Vec<String> = arg(&args, "--tables").expect("--tables").split(',').map(|s| s.to_string()).collect();
+            let progs = arg(&args, "--programs").expect("--programs");
+            let seed: u64 = arg(&args, "--seed").and_then(|x| x.parse().ok()).unwrap_or(1);
+            let k: f64 = arg(&args, "--k").and_then(|x| x.parse().ok()).unwrap_or(16.0);
+            let per: usize = arg(&args, "--per-prog").and_then(|x| x.parse().ok()).unwrap_or(3);
+            let r = float::load(&files).and_then(|t| prog::run_programs(&t, &progs, seed, k, arg(&args, "--types").as_deref(), per));
+            match r {
+                Ok(v) => println!("{v}"),
+                Err(e) => {
+                    eprintln!("tool error: {e}");
                     std::process::exit(2);
                 }
             }
